@@ -168,6 +168,9 @@ def make_frames(r, n: int, frame_id: str) -> List[FrameGroundTruth]:
     t = 1_600_000_000_000_000 + r.randint(0, 10**6)
     frames = []
     n_ids = r.randint(1, 8)
+    # annotations may carry a stamp of their own (sensor latency: the objects a fixed few milliseconds off their frame's
+    # stamp); lookups and the proportional time go by the frames' stamps
+    latency = r.choice([0, 0, 0, -20_000, -5_000, 1_500])
     ego = [r.uniform(-1e4, 1e4) if r.random() < 0.5 else r.uniform(-50, 50), r.uniform(-1e4, 1e4) if r.random() < 0.5 else r.uniform(-50, 50), 0.0]
     ego_yaw = O.rand_yaw(r)
     tilt = (r.uniform(-0.15, 0.15), r.uniform(-0.2, 0.2)) if r.random() < 0.3 else None
@@ -187,11 +190,11 @@ def make_frames(r, n: int, frame_id: str) -> List[FrameGroundTruth]:
             if r.random() < 0.25:
                 continue
             b = (tr["p"][0] + tr["v"][0] * sec, tr["p"][1] + tr["v"][1] * sec, tr["p"][2], G.wrap_pi(tr["yaw"] + tr["w"] * sec), 2.0, 4.0, 1.5)
-            o = O.obj3d(*b, uuid=u, t=t, velocity=(tr["v"][0], tr["v"][1], 0.0), negate_q=r.random() < 0.4, npts=5)
+            o = O.obj3d(*b, uuid=u, t=t + latency, velocity=(tr["v"][0], tr["v"][1], 0.0), negate_q=r.random() < 0.4, npts=5)
             if frame_id == "map" and tr.get("spot") is not None:
                 from perception_eval.common.schema import FrameID as _F
 
-                o = O.obj3d(*tr["spot"], G.wrap_pi(tr["yaw"] + tr["w"] * sec), 2.0, 4.0, 1.5, uuid=u, t=t, velocity=(0.0, 0.0, 0.0), negate_q=r.random() < 0.4, npts=5, frame=_F.MAP)
+                o = O.obj3d(*tr["spot"], G.wrap_pi(tr["yaw"] + tr["w"] * sec), 2.0, 4.0, 1.5, uuid=u, t=t + latency, velocity=(0.0, 0.0, 0.0), negate_q=r.random() < 0.4, npts=5, frame=_F.MAP)
             elif frame_id == "map":
                 o = O.to_map(o, ep, ey)
                 if r.random() < 0.4:
